@@ -1,6 +1,7 @@
 package refgen
 
 import (
+	"math"
 	"fmt"
 	"os"
 	"regexp"
@@ -33,6 +34,12 @@ func RenderValue(v zygo.Sexp, d int) string {
 		return "GONIL"
 	case *zygo.SexpInt:
 		return fmt.Sprintf("I%d", x.Val)
+	case *zygo.SexpFloat:
+		// the model has the floats h/2 of small magnitude only
+		if h := x.Val * 2; h == math.Trunc(h) && math.Abs(h) < 1e15 && !(h == 0 && math.Signbit(h)) {
+			return fmt.Sprintf("F%d", int64(h))
+		}
+		return "OTHER:float"
 	case *zygo.SexpBool:
 		if x.Val {
 			return "Bt"
